@@ -599,13 +599,15 @@ var wConsumeLimited = &workload{name: "consume-limited", n: 16, bound: boundPlai
 	})
 }}
 
-func groupWorkload(name string, block bool, n int) *workload {
+// groupWorkload: variant "" (cooperative-sticky, classic protocol), "eager"
+// (range balancer) or "848" (KIP-848 heartbeat protocol); both members use it.
+func groupWorkload(name string, block bool, n int, variant string) *workload {
 	w := &workload{name: name, n: n, bound: boundGroup, consumer: true}
 	w.build = func(x *netctl.Exec, st *state) {
 		c := twoBrokerTopic(x)
 		preload(x, c, 2)
 		gopts := func() []kgo.Opt {
-			return []kgo.Opt{
+			o := []kgo.Opt{
 				kgo.ConsumerGroup("g"),
 				kgo.ConsumeTopics("t"),
 				kgo.ConsumeResetOffset(kgo.NewOffset().AtStart()),
@@ -617,6 +619,13 @@ func groupWorkload(name string, block bool, n int) *workload {
 				// leaving the group commits in OnPartitionsRevoked.
 				kgo.AutoCommitInterval(10 * time.Minute),
 			}
+			switch variant {
+			case "eager":
+				o = append(o, kgo.Balancers(kgo.RangeBalancer()))
+			case "848":
+				o = append(o, kgo.WithContext(context.WithValue(context.Background(), "opt_in_kafka_next_gen_balancer_beta", true)))
+			}
+			return o
 		}
 		opts := gopts()
 		if block {
@@ -674,8 +683,10 @@ func groupWorkload(name string, block bool, n int) *workload {
 	return w
 }
 
-var wGroup = groupWorkload("group", false, 72)
-var wGroupBlock = groupWorkload("groupblock", true, 76)
+var wGroup = groupWorkload("group", false, 72, "")
+var wGroupBlock = groupWorkload("groupblock", true, 76, "")
+var wGroupEager = groupWorkload("group-eager", false, 68, "eager")
+var wGroup848 = groupWorkload("group-848", false, 58, "848")
 
 var wTxn = &workload{name: "txn", n: 27, bound: boundPlain, build: func(x *netctl.Exec, st *state) {
 	c := twoBrokerTopic(x)
@@ -807,6 +818,8 @@ func Plans() []nrun.Plan {
 	add(wConsumeLimited, 1)
 	add(wGroup, 2)
 	add(wGroupBlock, 2)
+	add(wGroupEager, 2)
+	add(wGroup848, 2)
 	add(wTxn, 1)
 	add(wShare, 1.5)
 	return append(ps, GenPlans()...)
